@@ -87,37 +87,9 @@ func (w *c06World) packet(t c06Tok) []byte {
 		if t.K == 1 {
 			return refpar2.Frame(s.SetID, unknownType, nil) // empty body: length exactly 64
 		}
-		// packets a PAR 2.0 reader need not interpret: a made-up type and, in turn, each of the specification's optional
-		// types with a well-formed, harmless body (a reader that does interpret them must still see the same set)
 		optCounter++
-		mk := func(name string) [16]byte {
-			var t [16]byte
-			copy(t[:], "PAR 2.0\x00"+name)
-			return t
-		}
-		id0 := s.IDs[0]
-		uniName := []byte{}
-		for _, r := range s.Files[0].Name {
-			uniName = append(uniName, byte(r), 0) // UTF-16LE of the same (ASCII) name
-		}
-		for (16+len(uniName))%4 != 0 {
-			uniName = append(uniName, 0)
-		}
-		switch optCounter % 8 {
-		case 1:
-			return refpar2.Frame(s.SetID, mk("UniFileN"), append(append([]byte{}, id0[:]...), uniName...))
-		case 2:
-			return refpar2.Frame(s.SetID, mk("CommASCI"), []byte("a comment.  "))
-		case 3:
-			return refpar2.Frame(s.SetID, mk("CommUni\x00"), append(make([]byte, 16), 'c', 0, 'o', 0))
-		case 4:
-			return refpar2.Frame(s.SetID, mk("FileSlic"), append(append([]byte{}, id0[:]...), 0, 0, 0, 0, 0, 0, 0, 0, 1, 2, 3, 4))
-		case 5:
-			return refpar2.Frame(s.SetID, mk("RFSC\x00\x00\x00\x00"), append(append([]byte{}, id0[:]...), make([]byte, 20)...))
-		case 6:
-			return refpar2.Frame(s.SetID, mk("PkdMain\x00"), make([]byte, 24))
-		case 7:
-			return refpar2.Frame(s.SetID, mk("PkdRecvS"), make([]byte, 12))
+		if pk := optionalPacket(s.SetID, s.IDs[0], s.Files[0].Name, s.SliceSize, optCounter%16); pk != nil {
+			return pk
 		}
 		return refpar2.Frame(s.SetID, unknownType, []byte("whatever"))
 	}
